@@ -2,7 +2,7 @@ from typing import Callable, Optional
 from . import fields
 from .placeholder import Placeholder
 from .. import base
-from ..spacing import Newline
+from ..spacing import Newline, Whitespace
 from ..block_comment import BlockComment
 
 
@@ -56,8 +56,15 @@ def _claim_comment(
     comment.claimed = True
     if ignored:
         if backwards:
+            # The placeholders of the lists that now start with this comment go in front of the line break(s) before
+            # it as well, where the parser puts them; behind it they would be cut off from the list's separator.
+            lead: list[base.RawTokenModel] = []
+            token = token_store.get_prev(comment)
+            while isinstance(token, Newline | Whitespace):
+                lead.insert(0, token)
+                token = token_store.get_prev(token)
             token_store.splice(
-                [*reversed(ignored), comment, newline], comment, first)
+                [*reversed(ignored), *lead, comment, newline], lead[0] if lead else comment, first)
         else:
             token_store.splice(
                 [newline, comment, *ignored], first, comment)
